@@ -35,21 +35,28 @@ def scenario(task):
     import torchsde
     st, method, nt, d, m, nsteps = task[:6]
     degy = task[6] if len(task) > 6 else 2
+    adaptive = task[7] if len(task) > 7 else None          # (rtol, atol): adaptive stepping on the control-flow path of the base point
     mm = e1.noise_dim(nt, d, m)
     outs = []
+    meshes = []
     ts = [0.0, 0.07, 0.1] if nsteps == 1 else [0.0, 0.13, 0.2]
+    kw = dict(adaptive=True, rtol=adaptive[0], atol=adaptive[1], dt_min=1e-4) if adaptive else {}
     for general in (False, True):
         mk = sdes.Maker(symbolic=True, seed=61)
         base = sdes.PolySDE(mk, st, nt, d=d, m=mm, degt=1, degy=degy)
         sde = AsGeneral(base) if general else base
         bm = sdes.KeyedBM(mk, 1, mm, levy=sdes.levy_for(method))
         y0 = mk('y0', (1, d), values=0.3 + 0.1 * np.arange(d).reshape(1, d))
-        ys = torchsde.sdeint(sde, y0, torch.tensor(ts, dtype=torch.float64), bm=bm, method=method, dt=0.1)
+        ys = torchsde.sdeint(sde, y0, torch.tensor(ts, dtype=torch.float64), bm=bm, method=method, dt=0.1, **kw)
         validate(ys, mk.env, 1e-8)
         outs.append(ys)
+        meshes.append(list(bm.calls))
     Zc = e1.Z()
     bad = []
     n = 0
+    if meshes[0] != meshes[1]:
+        k = next((i for i, (a, b) in enumerate(zip(meshes[0], meshes[1])) if a != b), min(len(meshes[0]), len(meshes[1])))
+        bad.append((f'step mesh (Brownian query #{k}: {meshes[0][k:k + 1]} vs {meshes[1][k:k + 1]}; {len(meshes[0])} vs {len(meshes[1])} queries)', 'sat', {}))
     for k, (x, y) in enumerate(zip(e1.flat_nodes(outs[0]), e1.flat_nodes(outs[1]))):
         r, model = Zc.equal(x, y)
         n += 1
@@ -59,12 +66,87 @@ def scenario(task):
     return dict(task=task, bad=bad[:3], identities=n, queries=Zc.queries, solver_s=Zc.solver_s, twin=(r == 'sat'))
 
 
+def controller_task(task):
+    """the adaptive controller of the REAL integrate loop / update_step_size walks the same mesh whatever the solver's
+    declaration-dependent metadata (strong_order, noise type): two runs on the same symbolic error estimates (E2)"""
+    import types
+    from fractions import Fraction
+    from .. import loopmodel
+    from ..symx import Engine, PathAbort
+    from ..core import Inconclusive
+    from ..symtorch import Unsupported
+    from torchsde._core import adaptive_stepping
+    max_trials, nout = task
+    EPS = Fraction(1, 10 ** 7)
+    E = Engine(max_paths=4000, timeout_ms=30000)
+    E.stop_after_failures = 3
+
+    def h(E):
+        real_err = adaptive_stepping.compute_error
+        errs = []
+        try:
+            ts = [E.input(f'ts{i}', Fraction(i, 1)) for i in range(nout)]
+            dt = E.input('dt', Fraction(1, 2)); dtmin = E.input('dtmin', Fraction(1, 8))
+            for a, b in zip(ts[:-1], ts[1:]):
+                E.assume(a < b)
+            E.assume((dtmin > 0) & (dt >= dtmin))
+            logs = []
+            truncated = []
+            for order, nt in ((Fraction(1, 2), 'general'), (Fraction(1), 'diagonal'), (Fraction(3, 2), 'additive')):
+                idx = [0]
+
+                def ce(y11, y12, rtol, atol, eps=1e-7):
+                    k = idx[0]; idx[0] += 1
+                    if k >= len(errs):
+                        e = E.fresh('err', 2)
+                        E.assume(e >= EPS)
+                        errs.append(e)
+                    return errs[k]
+                adaptive_stepping.compute_error = ce
+                s = loopmodel.make_stub_solver(dt, True, dtmin)
+                s.strong_order = float(order); s.weak_order = 1.0
+                s.sde = types.SimpleNamespace(noise_type=nt, sde_type='stratonovich')
+                orig = s.step
+
+                def counted(*a, s=s, orig=orig):
+                    if len(s.log) >= 3 * max_trials:
+                        raise PathAbort('trial bound')
+                    return orig(*a)
+                s.step = counted
+                try:
+                    s.integrate(loopmodel.fresh_state('y0', value=0.3), ts, (loopmodel.fresh_state('x0', value=0.2),))
+                except PathAbort:
+                    truncated.append(nt)          # trial bound: the steps logged so far are still compared
+                logs.append(s.log)
+            for other, nm in zip(logs[1:], ('diagonal', 'additive')):
+                if len(other) != len(logs[0]) and not truncated:
+                    E.fail(f'controller-mesh-{nm}', 'concrete', f'{len(logs[0]) // 3} trials declared general, {len(other) // 3} declared {nm}')
+                    continue
+                for i, (p, q) in enumerate(zip(logs[0], other)):
+                    if not E.prove(f'controller-mesh-{nm}', (p['t0'] == q['t0']) & (p['t1'] == q['t1'])):
+                        break
+            if truncated:
+                raise PathAbort('trial bound')
+        except (Inconclusive, Unsupported, PathAbort):
+            raise
+        except Exception as e:
+            import traceback
+            E.fail('controller-crash', 'exception', f"{type(e).__name__}: {e} | {traceback.format_exc()[-400:]}")
+        finally:
+            adaptive_stepping.compute_error = real_err
+    fails = E.explore(h)
+    return dict(stats=E.stats, nfail=len(fails), failures=[dict(what=f.what, kind=f.kind, inputs={k: str(v) for k, v in f.inputs.items()}, detail=f.detail[:300]) for f in fails[:5]])
+
+
 def tasks_for(tier):
     T = []
     for st, ms in METHODS.items():
         for method in ms:
             for nt in ('diagonal', 'scalar', 'additive'):
                 T.append((st, method, nt, 2, 2, 1))
+    # adaptive stepping: both declarations must walk the same mesh (the controller may depend on the error estimate only)
+    for nt in ('diagonal', 'additive'):
+        T.append(('ito', 'euler', nt, 1, 2, 2, 1, (1e-2, 1e-2)))
     if tier != 'quick':
         for st, ms in METHODS.items():
             for method in ms:
@@ -74,16 +156,17 @@ def tasks_for(tier):
 
 
 def run(ctx):
-    ctx.fn('sdeint', 'ForwardSDE.prod_diagonal', 'ForwardSDE.prod_default (bmm)', 'ForwardSDE.g_prod_default', 'ForwardSDE.f_and_g_prod_default*',
+    ctx.fn('BaseSDESolver.integrate (adaptive branch)', 'adaptive_stepping.update_step_size', 'sdeint', 'ForwardSDE.prod_diagonal', 'ForwardSDE.prod_default (bmm)', 'ForwardSDE.g_prod_default', 'ForwardSDE.f_and_g_prod_default*',
            'ForwardSDE.dg_ga_jvp_column_sum_v1 / _return_zero', 'Euler / EulerHeun / Heun / Midpoint / ReversibleHeun / LogODEMidpoint .step')
+    ctx.stubs.append('adaptive controller task: step() returns fresh states, compute_error returns an arbitrary value >= 1e-7 (the same for both declarations), x**a uninterpreted but functional')
     ctx.stubs.append('Brownian motion: stub keyed by interval; identical symbols for both declarations (log_ode: antisymmetric symbolic A)')
-    ctx.bounds = {'dims': 'd=2, m=2 (d=1, two steps in thorough)', 'steps': '1 (+ interpolated output)', 'f,g': 'polynomial degree (1,2), symbolic coefficients'}
+    ctx.bounds = {'dims': 'd=2, m=2 (d=1, two steps in thorough)', 'steps': '1 (+ interpolated output); adaptive: the accept/reject path taken at the base point over [0, 0.2], rtol=atol=1e-2', 'f,g': 'polynomial degree (1,2), symbolic coefficients'}
     ctx.assumptions += ['equality as real functions (g*v vs bmm with structural zeros are different float operations, bit-identity is not claimed)']
     ctx.outside += ['milstein / srk (do not accept general noise)']
     tasks = tasks_for(ctx.tier)
     tw = 0
     for t, (st_, res) in zip(tasks, pmap(scenario, tasks)):
-        name = f"{t[0]},{t[1]}: {t[2]} vs general embedding d={t[3]} steps={t[5]}"
+        name = f"{t[0]},{t[1]}: {t[2]} vs general embedding d={t[3]} steps={t[5]}" + (f" adaptive rtol=atol={t[7][0]}" if len(t) > 7 and t[7] else "")
         if st_ != 'ok':
             ctx.inconc(name, str(res)[:500]); continue
         ctx.paths += 1; ctx.queries += res['queries']; ctx.solver_s += res['solver_s']; ctx.validated += 2
@@ -94,17 +177,52 @@ def run(ctx):
         n, r, mdl = res['bad'][0]
         if r == 'unknown':
             ctx.inconc(name, n); continue
-        ctx.violation(f"{t[0]},{t[1]},{t[2]}|general-embedding", f"{n} differs between the {t[2]} declaration and its general embedding", replay=dict(task=list(t)))
+        ctx.violation(f"{t[0]},{t[1]},{t[2]}|general-embedding" + ('|adaptive' if len(t) > 7 and t[7] else ''), f"{n} differs between the {t[2]} declaration and its general embedding", replay=dict(task=list(t)))
     ctx.twin('twin: outputs claimed to differ by 1 must be refuted', tw == len(tasks))
+    ct = [(2, 2)] if ctx.tier == 'quick' else [(3, 2), (2, 3)]
+    for t, (st_, res) in zip(ct, pmap(controller_task, ct)):
+        name = f"adaptive controller independent of declaration metadata: <= {t[0]} trials, {t[1]} output times"
+        if st_ != 'ok':
+            ctx.inconc(name, str(res)[:500]); continue
+        ctx.paths += res['stats']['paths']; ctx.queries += res['stats']['queries']; ctx.solver_s += res['stats']['solver_s']
+        if not res['nfail']:
+            ctx.ok(name, f"{res['stats']['paths']} paths"); continue
+        f = res['failures'][0]
+        if f['kind'] == 'unknown':
+            ctx.inconc(name, f['detail']); continue
+        ctx.violation(f"adaptive-controller|{f['what']}", f"{f['what']}: {f['detail'] or 'step mesh depends on the declared noise type / advertised order'}",
+                      replay=dict(kind='controller', inputs=f['inputs']))
 
 
 def replay(data):
     import torchsde
+    if data['replay'].get('kind') == 'controller':
+        # numeric: adaptive solves of the same SDE declared special / general on the same Brownian path
+        worst = 0.0
+        for st, method in (('ito', 'euler'), ('stratonovich', 'heun'), ('stratonovich', 'midpoint'), ('stratonovich', 'reversible_heun')):
+            for nt in ('diagonal', 'additive'):
+                outs = []
+                for general in (False, True):
+                    mk = sdes.Maker(symbolic=False, seed=61)
+                    base = sdes.PolySDE(mk, st, nt, d=2, m=2, degt=1, degy=2)
+                    sde = AsGeneral(base) if general else base
+                    bm = torchsde.BrownianInterval(0., 1., size=(1, 2), dtype=torch.float64, entropy=5)
+                    y0 = torch.tensor([[0.3, 0.4]], dtype=torch.float64)
+                    with torch.no_grad():
+                        outs.append(torchsde.sdeint(sde, y0, torch.tensor([0., 0.5, 1.], dtype=torch.float64), bm=bm, method=method, dt=0.05,
+                                                    adaptive=True, rtol=1e-2, atol=1e-2, dt_min=1e-5))
+                worst = max(worst, float((outs[0] - outs[1]).abs().max()))
+        print('replay C17 adaptive: max abs difference special vs general', worst)
+        return worst > 1e-9
     task = data['replay']['task']
     st, method, nt, d, m, nsteps = task[:6]
     degy = task[6] if len(task) > 6 else 2
+    adaptive = task[7] if len(task) > 7 else None
+    kw = dict(adaptive=True, rtol=adaptive[0], atol=adaptive[1], dt_min=1e-4) if adaptive else {}
     mm = e1.noise_dim(nt, d, m)
     ts = [0.0, 0.07, 0.1] if nsteps == 1 else [0.0, 0.13, 0.2]
+    if adaptive:
+        ts = [0.0, 0.5, 1.0]
     outs = []
     for general in (False, True):
         mk = sdes.Maker(symbolic=False, seed=61)
@@ -112,7 +230,7 @@ def replay(data):
         sde = AsGeneral(base) if general else base
         bm = torchsde.BrownianInterval(0., ts[-1], size=(1, mm), dtype=torch.float64, entropy=5, levy_area_approximation=sdes.levy_for(method))
         y0 = torch.tensor(0.3 + 0.1 * np.arange(d).reshape(1, d))
-        outs.append(torchsde.sdeint(sde, y0, torch.tensor(ts, dtype=torch.float64), bm=bm, method=method, dt=0.1))
+        outs.append(torchsde.sdeint(sde, y0, torch.tensor(ts, dtype=torch.float64), bm=bm, method=method, dt=0.1, **kw))
     err = float((outs[0] - outs[1]).abs().max())
     print('replay C17: max abs difference', err)
     return err > 1e-10
